@@ -90,6 +90,15 @@ def mk_breaker(init, world):
             b.record_failure(EC.TRANSIENT)
             world.t += 6.0
             b.allow()
+        elif init == "stale-failure":
+            # one counted failure that has aged out of the window by the time of the race
+            b.record_failure(EC.TRANSIENT)
+            world.t += 11.0
+        elif init == "stale+fresh":
+            b.record_failure(EC.SERVER_ERROR)
+            world.t += 6.0
+            b.record_failure(EC.TRANSIENT)
+            world.t += 5.0
         elif init == "halfopen-free":
             b.record_failure(EC.TRANSIENT)
             b.record_failure(EC.TRANSIENT)
@@ -111,6 +120,15 @@ def mk_budget(init, world):
             b.consume(1)
         elif init == "full":
             b.consume(3)
+        elif init == "all-expired":
+            # the window is full of tokens that have all aged out by the time of the race
+            b.consume(3)
+            world.t += 11.0
+        elif init == "expired-head+live":
+            b.consume(2)
+            world.t += 6.0
+            b.consume(1)
+            world.t += 5.0
         return b
 
     return make
@@ -156,7 +174,7 @@ def sequential_spec(make, program, world):
 
 def programs_for(kind, rng, n):
     ops = BREAKER_OPS if kind == "breaker" else BUDGET_OPS
-    inits = ["closed", "near", "open", "expired", "probing", "halfopen-free"] if kind == "breaker" else ["empty", "two-left", "one-left", "full"]
+    inits = ["closed", "near", "open", "expired", "probing", "halfopen-free", "stale-failure", "stale+fresh"] if kind == "breaker" else ["empty", "two-left", "one-left", "full", "all-expired", "expired-head+live"]
     fixed = []
     if kind == "breaker":
         fixed = [
@@ -170,6 +188,8 @@ def programs_for(kind, rng, n):
             ("expired", [["allow", "success"], ["allow", "failT"]]),
             ("closed", [["failS", "failS"], ["failS", "state"]]),
             ("open", [["allow"], ["failT"], ["state"]]),
+            ("stale-failure", [["failT"], ["failT"]]),
+            ("stale+fresh", [["failT"], ["failS"]]),
         ]
     else:
         fixed = [
@@ -180,6 +200,10 @@ def programs_for(kind, rng, n):
             ("empty", [["c2", "rem"], ["c2", "rem"]]),
             ("full", [["c1"], ["rem"]]),
             ("empty", [["c1", "c1"], ["c1", "c1"], ["rem"]]),
+            ("all-expired", [["c2"], ["c2"]]),
+            ("all-expired", [["c1"], ["c2"], ["rem"]]),
+            ("expired-head+live", [["c2"], ["c1"]]),
+            ("expired-head+live", [["c1"], ["c1"], ["c1"]]),
         ]
     rnd = []
     while len(rnd) < n:
@@ -343,7 +367,7 @@ def conclude(ctx):
     return dict(
         rule=(
             "programs of 2-3 threads x 1-2 operations over {allow, record_success, record_failure(TRANSIENT|SERVER_ERROR), record_cancel, state} resp. {consume(1), consume(2), remaining()} from "
-            "initial states {closed, one failure short, open, open-expired, half-open probing, half-open free} resp. {empty, two left, one left, full}; each program: DFS over schedules with a pre-emption "
+            "initial states {closed, one failure short, open, open-expired, half-open probing, half-open free, stale failure, stale+fresh failures} resp. {empty, two left, one left, full, all tokens expired, expired head + live token}; each program: DFS over schedules with a pre-emption "
             "bound (pre-emption possible before every source line of the component and at every lock operation) followed by seeded random walks; each schedule's (results, observable continuation) is looked up in "
             "the set produced by all sequential order-respecting executions; distinct_nontrivial = distinct schedules (choice sequences); a schedule counts only if LINE events were delivered"
         ),
